@@ -2,12 +2,14 @@
 use crate::model::*;
 use rand::{rngs::StdRng, Rng, SeedableRng};
 
-/// `fam`: lifted | lifted_nodepth | longarc | knapsack | setpack | setpack_longarc | mixed | allimpacted | longarcs
+/// `fam`: lifted | lifted_nodepth | longarc | knapsack | setpack | setpack_longarc | lifted_pot | knapsack_pot | mixed | allimpacted | longarcs | reconv | potential
 pub fn gen_model(fam: &str, seed: u64, maxn: usize, tiny: bool) -> Model {
     let mut r = StdRng::seed_from_u64(seed ^ 0x9e3779b97f4a7c15);
     let pick = match fam {
         "mixed" => ["lifted", "lifted", "lifted_nodepth", "longarc", "knapsack", "setpack", "setpack_longarc", "lifted"][r.gen_range(0..8)],
-        "allimpacted" => ["lifted", "lifted", "lifted_nodepth", "knapsack", "setpack", "lifted"][r.gen_range(0..6)],
+        "allimpacted" => ["lifted", "lifted", "lifted_nodepth", "knapsack", "setpack", "lifted", "lifted_pot", "knapsack_pot"][r.gen_range(0..8)],
+        // deferred rewards: non-identity relax(), arc costs shifted by potentials
+        "potential" => ["lifted_pot", "lifted_pot", "knapsack_pot"][r.gen_range(0..3)],
         "longarcs" => ["longarc", "longarc", "setpack_longarc"][r.gen_range(0..3)],
         // heavy state re-convergence: few base states per layer / few distinct weights, many paths
         "reconv" => ["knapsack_eq", "knapsack_eq", "lifted_narrow", "lifted_narrow_nodepth"][r.gen_range(0..4)],
@@ -23,6 +25,8 @@ pub fn gen_model(fam: &str, seed: u64, maxn: usize, tiny: bool) -> Model {
         "lifted_nodepth" => Model::random_lifted(seed, n, b, mm, false, false, RubMode::None, dom),
         "longarc" => Model::random_lifted(seed, n, b, mm, false, true, RubMode::None, dom),
         "knapsack" => Model::random_knapsack(seed, n, rub, dom),
+        "lifted_pot" => Model::random_lifted(seed, n, b, mm, true, false, rub, DomMode::None).with_potentials(seed),
+        "knapsack_pot" => Model::random_knapsack(seed, n, rub, DomMode::None).with_potentials(seed),
         "knapsack_eq" => Model::random_knapsack_eq(seed, n, rub, dom),
         "lifted_narrow" => Model::random_lifted(seed, n, 2, 3, true, false, rub, dom),
         "lifted_narrow_nodepth" => Model::random_lifted(seed, n, 2, 3, false, false, RubMode::None, dom),
